@@ -218,9 +218,9 @@ GENERIC_FILES = ['permuta/patterns/perm.py', 'permuta/permutils/bijections.py', 
 
 
 def variants():
-    from ..selftest import generic_silent
+    from ..selftest import generic_equiv, generic_silent
 
-    return _variants() + generic_silent(GENERIC_FILES)
+    return _variants() + generic_silent(GENERIC_FILES) + generic_equiv(GENERIC_FILES)
 
 
 def _variants():
